@@ -89,7 +89,7 @@ func runVerify(w *world.World) vResult {
 	if o.Now != nowBefore {
 		nowS = "set"
 	}
-	joined := strings.Join(w.Getter.URLs, "\n")
+	joined := world.JoinURLs(w.Getter.URLs)
 	obs := fmt.Sprintf("%s urls=%d:%d now=%s", res, len(w.Getter.URLs), hx.Fnv1a([]byte(joined)), nowS)
 	return vResult{obs, res == "ok", res == "panic", append([]string{}, w.Getter.URLs...), err}
 }
